@@ -169,6 +169,35 @@ func GenH14(t *rapid.T) HCase {
 	return c
 }
 
+// mustDiscard6 reads the whole datagram (the harness's copy, not what the server made of it) and
+// says why RFC 8415 section 16 wants it discarded by a server whose identifier is gen.OwnDUID6 ("": it
+// does not, or the datagram is not well-formed enough to tell)
+func mustDiscard6(b []byte) string {
+	d, err := dhcpv6.FromBytes(b)
+	if err != nil {
+		return ""
+	}
+	inner, err := d.GetInnerMessage()
+	if err != nil {
+		return ""
+	}
+	sids := inner.GetOption(dhcpv6.OptionServerID)
+	if len(sids) > 1 {
+		return "" // not defined
+	}
+	present := len(sids) == 1
+	mt := inner.MessageType
+	switch {
+	case present && (mt == dhcpv6.MessageTypeSolicit || mt == dhcpv6.MessageTypeConfirm || mt == dhcpv6.MessageTypeRebind):
+		return fmt.Sprintf("a %s carrying a Server Identifier", mt)
+	case present && !bytes.Equal(sids[0].ToBytes(), gen.OwnDUID6):
+		return fmt.Sprintf("a %s whose Server Identifier %x differs from this server's", mt, sids[0].ToBytes())
+	case !present && (mt == dhcpv6.MessageTypeRequest || mt == dhcpv6.MessageTypeRenew || mt == dhcpv6.MessageTypeDecline || mt == dhcpv6.MessageTypeRelease):
+		return fmt.Sprintf("a %s without Server Identifier", mt)
+	}
+	return ""
+}
+
 // verifyServerID: one outgoing reply must name this server
 func verifyServerID(v6 bool, s server.Sent) *core.Violation {
 	if !v6 {
@@ -278,8 +307,8 @@ func genH(nilStop, verify bool, proto int) func(t *rapid.T) HCase {
 				b = gen.MutateBytes(t, b, prev)
 				d.Mut = true
 			}
-			if len(b) > 1500 {
-				b = b[:1500]
+			if len(b) > 65000 {
+				b = b[:65000] // a UDP datagram carries at most 65507 (IPv4) / 65527 (IPv6) bytes
 			}
 			prev = b
 			d.Hex = hex.EncodeToString(b)
@@ -434,6 +463,11 @@ func ExecH(c HCase) (res core.Result) {
 			return core.Violate("C01/panic", "datagram #%d (%d bytes) made the server panic: %v\n%s", idx, len(b), pan, trim(stack, 1800))
 		}
 		if c.Check14 {
+			if c.V6 && len(sent) > 0 {
+				if why := mustDiscard6(b); why != "" {
+					return core.Violate("C14/hist/not-discarded", "datagram #%d (%d bytes) of a history under chain %v: %s must be discarded, %d reply(ies) went out", idx, len(b), c.Plugins, why, len(sent))
+				}
+			}
 			for _, s := range sent {
 				if v := verifyServerID(c.V6, s); v != nil {
 					v.Message = fmt.Sprintf("datagram #%d of a history under chain %v: %s", idx, c.Plugins, v.Message)
@@ -525,7 +559,7 @@ func ExecH(c HCase) (res core.Result) {
 		abort := make(chan struct{})
 		var once sync.Once
 		// a watched lease file is rewritten in place (same content) for as long as the burst
-		// lasts, and the burst is then repeated in waves for 40 ms
+		// lasts, and the burst is then repeated in waves for 100 ms
 		stopW := make(chan struct{})
 		var wwg sync.WaitGroup
 		if len(ci.refresh) > 0 {
@@ -545,12 +579,12 @@ func ExecH(c HCase) (res core.Result) {
 						}
 						writeAt(f, text)
 					}
-					time.Sleep(100 * time.Microsecond)
+					time.Sleep(50 * time.Microsecond)
 				}
 			}()
 		}
 		defer func() { close(stopW); wwg.Wait() }()
-		until := time.Now().Add(40 * time.Millisecond)
+		until := time.Now().Add(100 * time.Millisecond)
 		for wave := 0; ; wave++ {
 			var wg sync.WaitGroup
 			start := make(chan struct{})
